@@ -249,14 +249,14 @@ type Options struct {
 	MaxPaths      int64
 	Wall          time.Duration
 	MaxViolations int
-	NoMerge       bool
+	Merge         bool // guarded merging of pure regions (off by default: it trades paths for harder formulas)
 	Verbose       bool
 	Footprint     bool
 }
 
 func (w *Worker) RunPath(fn *ssa.Function, item WorkItem, o *Options) (res *PathResult) {
 	p := newPath(item, w.Solver, fn.Name(), o.MaxSteps)
-	p.noMerge = o.NoMerge
+	p.noMerge = !o.Merge
 	p.funcs = map[string]bool{}
 	if o.Footprint {
 		p.foot = newFootprint()
